@@ -378,7 +378,7 @@ Record freads := mkFR {
 (* result of one p?gstrf call *)
 Inductive fres :=
 | FDone (st : pstate) (r : freads)        (* factorization ran: L, U, perm_r, info in 0..n are F(r) *)
-| FEstimate (st : pstate) (v : Z)         (* lwork = -1: info = v, nothing computed (perm_r already overwritten by EMPTY!) *)
+| FEstimate (st : pstate) (v : Z)         (* lwork = -1: info = v, nothing computed *)
 | FMemFail (st : pstate) (v : Z)          (* info = v > n *)
 | FWorkFail (st : pstate) (v : Z)         (* a thread could not get its work arrays: see F7 in DESIGN.md *)
 | FUnmodelled | FDiverge.
@@ -468,8 +468,10 @@ Definition step (expert : bool) (st : pstate * sess) (o : op) : (pstate * sess) 
           let se1 := set_sess_fac se (fa_vals a) opid (PRfrom opid) opid (Some f) (fa_usepr a) in
           if expert then let '(s2, e) := query_space s1 in ((s2, se1), RFactor r true e)
           else ((s1, se1), RFactor r false 0)
-      | FEstimate s1 v => ((s1, set_sess_fac se (fa_vals a) opid PRempty opid (s_fac se) (fa_usepr a)), REstimate v)
-      | FMemFail s1 v => ((s1, set_sess_fac se (fa_vals a) opid PRempty opid None (fa_usepr a)), RMemFail v)
+      (* perm_r is filled with EMPTY only after p?gstrf_MemInit has returned 0 (thread_init.c:146-151): a query or a
+         memory failure leaves the caller's perm_r alone *)
+      | FEstimate s1 v => ((s1, set_sess_fac se (fa_vals a) opid (s_permr se) opid (s_fac se) (fa_usepr a)), REstimate v)
+      | FMemFail s1 v => ((s1, set_sess_fac se (fa_vals a) opid (s_permr se) opid None (fa_usepr a)), RMemFail v)
       | FWorkFail s1 v => ((s1, set_sess_fac se (fa_vals a) opid PRempty opid None (fa_usepr a)), RWorkFail v)
       | FUnmodelled | FDiverge => (st, RUnmodelled)
       end
@@ -484,7 +486,7 @@ Definition step (expert : bool) (st : pstate * sess) (o : op) : (pstate * sess) 
               let se1 := set_sess_fac se (fa_vals a) (s_permc se) (PRfrom opid) (s_sym se) (Some f) (fa_usepr a) in
               if expert then let '(s2, e) := query_space s1 in ((s2, se1), RFactor r true e)
               else ((s1, se1), RFactor r false 0)
-          | FEstimate s1 v => ((s1, set_sess_fac se (fa_vals a) (s_permc se) PRempty (s_sym se) (s_fac se) (fa_usepr a)), REstimate v)
+          | FEstimate s1 v => ((s1, set_sess_fac se (fa_vals a) (s_permc se) (s_permr se) (s_sym se) (s_fac se) (fa_usepr a)), REstimate v)
           | FMemFail s1 v => ((s1, se), RMemFail v)
           | FWorkFail s1 v =>
               (* the storage is still the session's, its contents are no longer factors of anything *)
@@ -506,8 +508,8 @@ Definition step (expert : bool) (st : pstate * sess) (o : op) : (pstate * sess) 
       let sym := if refact =? c_NO then opid else s_sym se in
       match gstrf s a refact sym (permr_id (s_permr se)) (lu_of se) true with
       | FEstimate s1 v =>
-          let pr := if restore then s_permr se else PRempty in
-          ((s1, set_sess_fac se (s_vals se) (s_permc se) pr (s_sym se) (s_fac se) (s_usepr se)), REstimate v)
+          (* "no other side effects": nothing the caller holds changes ([restore] is kept in the op for the harness protocol) *)
+          ((s1, set_sess_fac se (s_vals se) (s_permc se) (s_permr se) (s_sym se) (s_fac se) (s_usepr se)), REstimate v)
       | _ => (st, RUnmodelled)
       end
   | OQSpace =>
@@ -537,19 +539,19 @@ Definition observe (s : pstate) : observed :=
         (if stack_full k 0 then -1 else k_top1 k) (if stack_full k 0 then -1 else k_top2 k) (k_array k)
         (if stack_full k 0 then -1 else k_size k - k_used k - 1).
 
-(* ------------------------------------------------------------------ pivot choice of p?gstrf_pivotL.c:92-135 *)
+(* ------------------------------------------------------------------ pivot choice of p?gstrf_pivotL.c:93-160 *)
 (* candidates: the entries of column jcol on/below the diagonal position of its supernode, as (row, |value|);
    magnitudes are integers and the threshold u = un/ud (the C code compares rounded floating-point products; the
    correspondence only asserts outside a rounding margin). *)
 Record pivres := mkPiv { pv_ptr : nat; pv_row : Z; pv_usepr : bool; pv_info : Z }.
 
-Fixpoint scan (c : list (Z * Z)) (idx : nat) (pivmax : Z) (pivptr : nat) (usepr : bool) (oldrow : Z) (oldptr : nat)
-              (diagrow : Z) (diag : option nat) : Z * nat * nat * option nat :=
+Fixpoint scan (c : list (Z * Z)) (idx : nat) (pivmax : Z) (pivptr : nat) (usepr : bool) (oldrow : Z) (oldptr : option nat)
+              (diagrow : Z) (diag : option nat) : Z * nat * option nat * option nat :=
   match c with
   | [] => (pivmax, pivptr, oldptr, diag)
   | (row, mag) :: r =>
       let '(pm, pp) := if pivmax <? mag then (mag, idx) else (pivmax, pivptr) in
-      let op := if usepr && (row =? oldrow) then idx else oldptr in
+      let op := if usepr && (row =? oldrow) then Some idx else oldptr in      (* old_pivptr, EMPTY = None *)
       let dg := if row =? diagrow then Some idx else diag in
       scan r (S idx) pm pp usepr oldrow op diagrow dg
   end.
@@ -561,11 +563,17 @@ Definition nth_mag (c : list (Z * Z)) (i : nat) : Z := snd (nth i c (c_EMPTY, 0)
 Definition passes (mag pivmax un ud : Z) : bool := negb (mag =? 0) && (un * pivmax <=? mag * ud).
 
 Definition pivotL (jcol : Z) (c : list (Z * Z)) (usepr : bool) (oldrow diagrow un ud : Z) : pivres :=
-  let '(pivmax, pivptr, oldptr, diag) := scan c 0%nat 0 0%nat usepr oldrow 0%nat diagrow None in
-  if pivmax =? 0 then mkPiv pivptr (nth_row c pivptr) false (jcol + 1)      (* singular: *usepr = NO *)
+  let '(pivmax, pivptr, oldptr, diag) := scan c 0%nat 0 0%nat usepr oldrow None diagrow None in
+  if pivmax =? 0 then                                                      (* singular: *usepr = NO *)
+    (* no candidate row at all: the diagonal position is recorded (lines 121-129) *)
+    mkPiv pivptr (if (pivptr <? length c)%nat then nth_row c pivptr else diagrow) false (jcol + 1)
   else
     let '(pivptr1, usepr1) :=
-        if usepr then (if passes (nth_mag c oldptr) pivmax un ud then (oldptr, true) else (pivptr, false))
+        if usepr then
+          match oldptr with
+          | None => (pivptr, false)                                        (* requested pivot row is not a candidate: give up reuse *)
+          | Some o => if passes (nth_mag c o) pivmax un ud then (o, true) else (pivptr, false)
+          end
         else (pivptr, false) in
     if usepr1 then mkPiv pivptr1 oldrow true 0                              (* *pivrow stays inv_perm_r[jcol] *)
     else
